@@ -956,7 +956,13 @@ pub fn search_t(contract: &str, as_twin: bool, seed: u64, budget: u64) -> i32 {
     }
     rc
 }
-pub fn search(contract: &str, as_twin: bool) -> i32 {
+/// remove the scratch directories of this process (scenarios that return early leave theirs behind)
+fn cleanup_scratch() {
+    let pre = format!("copia-verif-serve-{}-", std::process::id());
+    if let Ok(rd) = std::fs::read_dir(std::env::temp_dir()) { for e in rd.flatten() { if e.file_name().to_string_lossy().starts_with(&pre) { let _ = std::fs::remove_dir_all(e.path()); } } }
+}
+pub fn search(contract: &str, as_twin: bool) -> i32 { let r = search_inner(contract, as_twin); cleanup_scratch(); r }
+fn search_inner(contract: &str, as_twin: bool) -> i32 {
     if std::env::var("COPIA_BIN").unwrap_or_default().is_empty() { eprintln!("COPIA_BIN not set"); if as_twin { println!("CASES 0"); } return 0; }
     let _ = contract;
     let mut cases = 0;
